@@ -5,10 +5,14 @@ use vstd::std_specs::cmp::{OrdSpec, PartialOrdSpec};
 verus! {
 //@include shims/duration.rs
 //@include shims/uuid.rs
+//@include shims/offsetdatetime.rs
 //@include shims/kvx_btreemap.rs
 
 // ---- real types, extracted ----
 //@extract Cid
+// `impl From<&Cid> for OffsetDateTime` (repl/cid.rs: UNIX_EPOCH + cid.ts): the instant of the change, WITHOUT the server id
+impl<'a> vstd::std_specs::convert::FromSpecImpl<&'a Cid> for OffsetDateTime { open spec fn obeys_from_spec() -> bool { true } open spec fn from_spec(c: &'a Cid) -> OffsetDateTime { OffsetDateTime { unix_ns: c.ts.ns() as i128 } } }
+impl<'a> From<&'a Cid> for OffsetDateTime { #[verifier::external_body] fn from(c: &'a Cid) -> (r: OffsetDateTime) { unimplemented!() } }
 impl Clone for Cid { fn clone(&self) -> (r: Self) ensures r == *self { Cid { ts: self.ts, s_uuid: self.s_uuid } } }
 // derived order of Cid = (ts, s_uuid) lexicographic (proved on the real type by kani unit cid_kani of C07)
 pub open spec fn cid_lt(a: Cid, b: Cid) -> bool { a.ts.dlt(b.ts) || (a.ts == b.ts && a.s_uuid.0 < b.s_uuid.0) }
@@ -162,6 +166,24 @@ pub proof fn lemma_conflict_symmetric(x: Cid, y: Cid)
 // deletion is absorbing and the surviving tombstone time is order independent (C09)
 pub proof fn lemma_ts_commutes(a: Cid, b: Cid) ensures cid_min(a, b) == cid_min(b, a) { lemma_cid_total(a, b); }
 
+// EntryChangeState::new_without_schema(cid, attrs) (repl/entry.rs; an iterator chain over the attribute names, not under contract):
+// a tombstone at `cid` for an entry of class tombstone, else a live state created at `cid` with every attribute changed at `cid`
+pub uninterp spec fn has_tombstone_class(attrs: Map<Attribute, ValueSet>) -> bool;
+impl EntryChangeState {
+    #[verifier::external_body] pub fn new_without_schema(cid: &Cid, attrs: &Eattrs) -> (r: EntryChangeState)
+        ensures has_tombstone_class(attrs@) ==> r.st == (State::Tombstone { at: *cid }),
+                !has_tombstone_class(attrs@) ==> (r.st matches State::Live { at, changes } && at == *cid && changes@.dom() =~= attrs@.dom() && forall|a: Attribute| #[trigger] changes@.contains_key(a) ==> changes@[a] == *cid) { unimplemented!() }
+}
+// C08, "identical conflict entries": the conflict copy made for a lost creation is a NEW entry of this change — every attribute state
+// it carries has this change's id (and every attribute it holds, bar the two bookkeeping ones, has a state), so the supplier's
+// per-attribute window filter sends all of it to every replica, including one that already saw the original creation (finding F15)
+pub open spec fn all_states_at(e: EntryChangeState, attrs: Map<Attribute, ValueSet>, cid: Cid) -> bool {
+    match e.st {
+        State::Live { at, changes } => at == cid && (forall|a: Attribute| #[trigger] changes@.contains_key(a) ==> changes@[a] == cid)
+                                       && (forall|a: Attribute| #[trigger] attrs.contains_key(a) && !is_meta(a) ==> changes@.contains_key(a)),
+        State::Tombstone { at } => at == cid,
+    }
+}
 impl EntryChangeState {
 //@extract ecs_build
 //@extract ecs_current
